@@ -23,7 +23,7 @@ func checkC11(c *Ctx) {
 	c.Rule("C11.2", "default tempo: with no tempo event the tempo lookup and the time query use 120 BPM", 2)
 	c.Rule("C11.3", "segment rule: cumulative pass: time(k) = time(prev) + D(tempo in force before tick(k), tick(k) - tick(prev)); time query: time(prev) + D(prev.bpm, x - prev.tick), prev = last change before x; repeated ticks", 4)
 	c.Rule("C11.4", "per-event times: the iterator hands out TimeAt(absolute tick) with the absolute tick a running sum of deltas, reset per track", 1)
-	c.Rule("C11.5", "tempo collection: while reading, each tempo event is recorded with the running absolute tick of its track (reset at end-of-track) and the decoded tempo; the map is finalised (sorted, timed, latched) only after the last event is recorded; the records are written by nobody outside the smf package", 4)
+	c.Rule("C11.5", "tempo collection: while reading, each tempo event is recorded with the running absolute tick of its track (reset at end-of-track) and the decoded tempo; the map is finalised (sorted, timed, latched) only after the last event is recorded; the records are written by nobody outside the smf package", 3)
 
 	mtT := p.namedType("smf", "MetricTicks")
 	smfT := p.namedType("smf", "SMF")
@@ -497,65 +497,7 @@ func checkC11(c *Ctx) {
 	}
 	// ---- C11.5 collection while reading
 	if rf := p.Func("smf", "ReadFrom"); rf != nil {
-		var coll *ssa.Function
-		for _, f := range p.Reachable(rf) {
-			for _, b := range f.Blocks {
-				for _, in := range b.Instrs {
-					if al, ok := in.(*ssa.Alloc); ok && namedTypeName(al.Type()) == "TempoChange" {
-						// the collecting function is the one that also decodes the tempo event (other functions may build
-						// TempoChange values too, e.g. a default record for queries before the first tempo event)
-						for _, call := range calls(f) {
-							if cal := call.Common().StaticCallee(); cal != nil && cal.Name() == "GetMetaTempo" {
-								coll = f
-							}
-						}
-					}
-				}
-			}
-		}
-		if coll == nil {
-			c.Unk("C11.5", "tempo collection", "-", "no function on the read path creates TempoChange records")
-		} else {
-			c.Fn(FuncName(coll))
-			// AbsTicks field of the record <- running sum phi(+convert(delta)); the phi is reset to 0 on the end-of-track path
-			okSum, okReset, okDecode := false, false, false
-			for _, b := range coll.Blocks {
-				for _, in := range b.Instrs {
-					switch x := in.(type) {
-					case *ssa.Store:
-						if fv := fieldVar(x.Addr); fv != nil && fv.Name() == "AbsTicks" {
-							if add, ok := x.Val.(*ssa.BinOp); ok && add.Op == token.ADD {
-								if phi, ok := add.X.(*ssa.Phi); ok {
-									okSum = true
-									// the reset must come from inside the event loop (the end-of-track path), not only from the initial value
-									for i, e := range phi.Edges {
-										if k, ok := constInt(e); ok && k == 0 {
-											pred := phi.Block().Preds[i]
-											for _, l := range naturalLoops(coll) {
-												if l.Head == phi.Block() && l.Body[pred] {
-													okReset = true
-												}
-											}
-										}
-									}
-								}
-							}
-						}
-					case *ssa.Call:
-						if f := x.Common().StaticCallee(); f != nil && f.Name() == "GetMetaTempo" {
-							// out parameter is the BPM field of the record
-							if fa, ok := x.Common().Args[len(x.Common().Args)-1].(*ssa.FieldAddr); ok {
-								if n, _, _ := fieldOf(fa); n == "BPM" {
-									okDecode = true
-								}
-							}
-						}
-					}
-				}
-			}
-			c.Check(okSum && okReset, "C11.5", "tempo events recorded with the running tick of their track", p.Pos(coll.Pos()), "record tick = running sum of deltas, reset to 0 at end-of-track", fmt.Sprintf("tempo record tick is not the per-track running sum (sum=%v reset=%v)", okSum, okReset))
-			c.Check(okDecode, "C11.5", "tempo decoded into the record", p.Pos(coll.Pos()), "GetMetaTempo writes the record's BPM", "the decoded tempo is not stored in the record")
-		}
+		tempoCollectionSim(c, "C11.5", rf)
 		tempoFinalisedAfterCollection(c, "C11.5", rf)
 	}
 	// the tempo map handed out by SMF.TempoChanges() shares its records with the file value: nobody outside the smf
@@ -951,4 +893,135 @@ func iteratorSimulationSel(c *Ctx, rule string, do, timeAt *ssa.Function, sel []
 		}
 	}
 	c.Check(ok, rule, label, p.Pos(do.Pos()), "2 tracks x 2 events, symbolic deltas: callback once per event in file order, AbsTicks = running sum per track, AbsMicroSeconds = TimeAt(AbsTicks)", why)
+}
+
+// tempoCollectionSim (C11.5): ReadFrom is interpreted on a two-track file whose tracks hold tempo events — track 0: tempo
+// 120 BPM after 16 ticks, tempo 60 BPM 32 ticks later; track 1: tempo 240 BPM after 5 ticks, and 30 BPM after two
+// five-byte deltas that carry the running tick beyond 32 bits — and the tempo map the file hands out afterwards
+// (TempoChanges()) must be, in tick order, (5, 240), (16, 120), (48, 60), (4563402757, 30): every tempo event is
+// recorded with the running tick of ITS track (restarting at 0 in the next track) and the tempo decoded from its three
+// bytes. Replaces a rule that looked for "store of phi + delta into AbsTicks" and "GetMetaTempo writes the BPM field"
+// in the collecting function.
+func tempoCollectionSim(c *Ctx, rule string, rf *ssa.Function) {
+	p := c.P
+	smfT := p.namedType("smf", "SMF")
+	if smfT == nil {
+		c.Unk(rule, "tempo collection simulation", "-", "smf.SMF not found")
+		return
+	}
+	tcM := p.MethodOf(types.NewPointer(smfT), "TempoChanges")
+	if tcM == nil {
+		tcM = p.MethodOf(smfT, "TempoChanges")
+	}
+	if tcM == nil {
+		c.Unk(rule, "tempo collection simulation", "-", "SMF.TempoChanges not found")
+		return
+	}
+	key := "tempo events are recorded with the running tick of their track and their decoded tempo (whole-file read simulation)"
+	ex := NewExec(p)
+	ex.Unroll = 16
+	ex.SortModel = true
+	st := ex.NewState()
+	k8 := func(v int64) Val { return mkConst(v, 8, false) }
+	var file []Val
+	add := func(bs ...int64) {
+		for _, b := range bs {
+			file = append(file, k8(b))
+		}
+	}
+	str := func(s string) {
+		for _, ch := range []byte(s) {
+			file = append(file, k8(int64(ch)))
+		}
+	}
+	str("MThd")
+	add(0, 0, 0, 6, 0, 1, 0, 2, 0x01, 0xE0)
+	str("MTrk")
+	add(0, 0, 0, 18)
+	add(0x10, 0xFF, 0x51, 0x03, 0x07, 0xA1, 0x20) // 500000 us per quarter = 120 BPM at tick 16
+	add(0x20, 0xFF, 0x51, 0x03, 0x0F, 0x42, 0x40) // 1000000 us = 60 BPM at tick 48
+	add(0x00, 0xFF, 0x2F, 0x00)
+	str("MTrk")
+	add(0, 0, 0, 30)
+	add(0x05, 0xFF, 0x51, 0x03, 0x03, 0xD0, 0x90)                         // 250000 us = 240 BPM at tick 5 of the second track
+	add(0x8F, 0x80, 0x80, 0x80, 0x00, 0x90, 0x3C, 0x40)                   // a note 0xF0000000 ticks later (five-byte delta)
+	add(0x82, 0x80, 0x80, 0x80, 0x00, 0xFF, 0x51, 0x03, 0x1E, 0x84, 0x80) // 2000000 us = 30 BPM another 0x20000000 ticks later: tick 4563402757, beyond 32 bits
+	add(0x00, 0xFF, 0x2F, 0x00)
+	src := ex.mkBytes(st, "file", file, false, 0)
+	rd := ex.readerOver(st, src)
+	outs := ex.Call(st, rf, []Val{rd, &SliceV{Nil: true, Off: mkConst(0, 64, true), Len: mkConst(0, 64, true), Cap: mkConst(0, 64, true)}}, nil)
+	if ex.Budget || len(outs) == 0 {
+		c.Unk(rule, key, p.Pos(rf.Pos()), fmt.Sprintf("abstract interpretation did not complete (budget=%v)", ex.Budget))
+		return
+	}
+	for u := range ex.Unsupported {
+		c.Unk(rule, key, p.Pos(rf.Pos()), "unmodelled construct: "+u)
+		return
+	}
+	type rec struct {
+		tick int64
+		bpm  float64
+	}
+	want := []rec{{5, 240}, {16, 120}, {48, 60}, {4563402757, 30}}
+	ok, why, n := true, "", 0
+	for _, o := range outs {
+		if o.Panic {
+			ok, why = false, "ReadFrom may panic on the representative file: "+o.Msg
+			continue
+		}
+		if ev, _ := o.Ret[len(o.Ret)-1].(*IfaceV); ev == nil || !ev.Nil {
+			ok, why = false, "ReadFrom may fail on the representative file ["+outcomeWitness(o)+"]"
+			continue
+		}
+		sp, _ := o.Ret[0].(*PtrV)
+		if sp == nil || sp.Nil || sp.Unk {
+			ok, why = false, "no file value returned"
+			continue
+		}
+		var recv Val = sp
+		if _, isPtr := tcM.Params[0].Type().(*types.Pointer); !isPtr {
+			recv = o.St.heap[sp.Obj]
+		}
+		for _, r := range ex.Call(o.St, tcM, []Val{recv}, nil) {
+			n++
+			if r.Panic {
+				ok, why = false, "TempoChanges may panic"
+				continue
+			}
+			sl, _ := r.Ret[0].(*SliceV)
+			els, okE := ex.sliceElems(r.St, sl)
+			if sl == nil || !okE {
+				ok, why = false, "the tempo map is not tracked after reading"
+				continue
+			}
+			if len(els) != len(want) {
+				ok, why = false, fmt.Sprintf("the tempo map holds %d records after reading a file with %d tempo events", len(els), len(want))
+				continue
+			}
+			for i, e := range els {
+				var tv *StructV
+				switch x := e.(type) {
+				case *PtrV:
+					tv, _ = r.St.heap[x.Obj].(*StructV)
+				case *StructV:
+					tv = x
+				}
+				if tv == nil {
+					ok, why = false, "tempo record not tracked"
+					break
+				}
+				at, _ := tv.Fields[fieldIndex(tv.T, "AbsTicks")].(*IntV)
+				bpm, _ := tv.Fields[fieldIndex(tv.T, "BPM")].(*FloatV)
+				if at == nil || !r.St.sameInt(at, mkConst(want[i].tick, 64, true)) {
+					ok, why = false, fmt.Sprintf("tempo record %d has tick %s, expected %d: in tick order the file's tempo events sit at 5 (second track), 16, 48 (first track) and 4563402757 (second track, beyond 32 bits) — the running tick is a 64-bit sum per track and restarts at 0 with each track", i, valString(tv.Fields[fieldIndex(tv.T, "AbsTicks")]), want[i].tick)
+					break
+				}
+				if bpm == nil || !bpm.Known || bpm.F != want[i].bpm {
+					ok, why = false, fmt.Sprintf("tempo record at tick %d carries %s, the event says %v BPM (60000000 / microseconds per quarter)", want[i].tick, valString(tv.Fields[fieldIndex(tv.T, "BPM")]), want[i].bpm)
+					break
+				}
+			}
+		}
+	}
+	c.Check(ok && n > 0, rule, key, p.Pos(rf.Pos()), "two tracks, four tempo events: the map is (5, 240 BPM), (16, 120 BPM), (48, 60 BPM), (4563402757, 30 BPM) — ticks are 64-bit sums", why)
 }
